@@ -459,3 +459,91 @@ def path_avoiding(fn, start, avoid, targets):
     """is some block of `targets` reachable from `start` without entering any block of `avoid`?"""
     blocks = fn.reachable_from(start, stop=list(avoid))
     return bool(set(targets) & blocks)
+
+
+ITER_WALK = {"next", "next_back", "peek", "into_iter", "iter", "by_ref", "zip", "chain", "all", "any", "map", "filter", "filter_map", "skip",
+             "skip_while", "take", "take_while", "step_by", "enumerate", "rev", "peekable", "find", "find_map", "position", "flat_map",
+             "for_each", "try_for_each", "fold", "cloned", "copied", "map_while", "inspect", "fuse", "flatten", "last", "nth", "collect"}
+TWO_SIDED = {"zip", "chain"}
+
+
+def iter_chain(prog, fn, operand, depth=0, seen=None):
+    """Walk from a value that was produced by an iterator pipeline (an item yielded by next(), a closure's own argument, a tuple
+    of a zip) back to the pipeline's sources.  Returns (adaptors, leaves): every iterator call passed on the way as (fn, Call)
+    and the non-iterator origins the pipeline starts from as (fn, Origin).  Unlike deep_roots this follows BOTH operands of
+    zip/chain and leaves closures through the consumer they were handed to."""
+    if seen is None:
+        seen = set()
+    adaptors, leaves = [], []
+    for f, o in ultimate_roots(prog, fn, operand, {"deref", "deref_mut", "clone", "borrow", "as_ref", "as_mut", "unwrap", "expect", "branch"}):
+        if o.kind == "call" and o.ref.name in ITER_WALK and depth < 16:
+            c = o.ref
+            key = (f.id, c.bb)
+            if key in seen:
+                continue
+            seen.add(key)
+            adaptors.append((f, c))
+            for a in c.args[:2] if c.name in TWO_SIDED else c.args[:1]:
+                a2, l2 = iter_chain(prog, f, a, depth + 1, seen)
+                adaptors += a2
+                leaves += l2
+        elif f.is_closure and o.kind == "param" and o.ref >= 2 and depth < 16:
+            cons = closure_consumer(prog, f)
+            if cons and cons[2] != 0 and cons[1].args:
+                pf, pc, ai = cons
+                key = (pf.id, pc.bb)
+                if key not in seen:
+                    seen.add(key)
+                    adaptors.append((pf, pc))
+                    for a in pc.args[:2] if pc.name in TWO_SIDED else pc.args[:1]:
+                        a2, l2 = iter_chain(prog, pf, a, depth + 1, seen)
+                        adaptors += a2
+                        leaves += l2
+            else:
+                leaves.append((f, o))
+        else:
+            leaves.append((f, o))
+    return adaptors, leaves
+
+
+def loop_of(f, bb):
+    """natural loop with header bb (the block calling next()): header + every block that reaches a back-edge source
+    without passing through the header"""
+    backs = [p for p in f.pred[bb] if p in f.dom and bb in f.dom[p]]
+    body = {bb}
+    st = list(backs)
+    while st:
+        b = st.pop()
+        if b in body:
+            continue
+        body.add(b)
+        st.extend(p for p in f.pred[b] if p in f.live_blocks)
+    return body
+
+
+def loops_reaching(f, emit_names):
+    """For every loop of `f` that is driven by an Iterator::next() call and whose body calls one of `emit_names`:
+    (next Call, emit Calls in the innermost such loop, skipping Some-arm targets).  'skipping' lists the Some-arm targets from
+    which the loop head is reachable again WITHOUT passing any emit call — i.e. an item can be dropped on the floor."""
+    out = []
+    nexts = [c for c in f.calls if c.name == "next" and "Iterator" in (c.callee.get("trait") or "") and f.in_loop(c.bb) and c.bb in f.live_blocks]
+    bodies = {id(c): loop_of(f, c.bb) for c in nexts}
+    for c in nexts:
+        body = bodies[id(c)]
+        # emits whose innermost enclosing next-loop is this one
+        emits = []
+        for e in f.calls:
+            if e.name in emit_names and e.bb in body and e.bb in f.live_blocks:
+                inner = [c2 for c2 in nexts if c2 is not c and e.bb in bodies[id(c2)] and bodies[id(c2)] < body]
+                if not inner:
+                    emits.append(e)
+        if not emits:
+            continue
+        arms = option_arms(f, c)
+        skipping = [s for s in arms["some"] if path_avoiding(f, s, [e.bb for e in emits], [c.bb])]
+        out.append((c, emits, skipping, bool(arms["some"])))
+    return out
+
+
+DROPPING_ITER = {"filter", "filter_map", "skip", "skip_while", "take", "take_while", "step_by", "map_while", "find", "find_map", "nth", "last",
+                 "flat_map", "flatten", "position", "next_back", "rev", "dedup", "dedup_by", "dedup_by_key", "retain", "truncate", "drain", "pop"}
